@@ -40,34 +40,37 @@ type Violation struct {
 	Model     map[string]string // nondet name -> rendered value
 	Decisions []Decision
 	Detail    string
+	MapOrders int // map-order decision points on the violating path
 }
 
 type pathState struct {
-	w           *Worker
-	forced      []Decision
-	pos         int
-	decisions   []Decision
-	pc          []*Term
-	bindings    map[string]*Term
-	names       map[string]int
-	inputs      []inputDecl // nondet inputs in creation order
-	obs         []Observation
-	covers      map[string]bool
-	asserts     map[string]int // label -> times checked
-	viols       []Violation
-	assumes     []string
-	steps       int64
-	diverged    string
-	unknowns    int
-	siblings    [][]Decision
-	fresh       int
-	calls       int64
-	goStmts     int
-	lastModel   map[string]*Term
-	alpha       map[string]string // input name -> character class it is restricted to
-	notes       map[string]bool   // failed Note labels
-	opaques     map[string]bool   // opaque renderings seen on this path
-	opaqueOrder []string
+	w            *Worker
+	forced       []Decision
+	pos          int
+	decisions    []Decision
+	pc           []*Term
+	bindings     map[string]*Term
+	names        map[string]int
+	inputs       []inputDecl // nondet inputs in creation order
+	obs          []Observation
+	covers       map[string]bool
+	asserts      map[string]int // label -> times checked
+	viols        []Violation
+	assumes      []string
+	steps        int64
+	diverged     string
+	unknowns     int
+	siblings     [][]Decision
+	fresh        int
+	calls        int64
+	goStmts      int
+	mapOrders    int
+	mapOrdersOff bool
+	lastModel    map[string]*Term
+	alpha        map[string]string // input name -> character class it is restricted to
+	notes        map[string]bool   // failed Note labels
+	opaques      map[string]bool   // opaque renderings seen on this path
+	opaqueOrder  []string
 }
 
 type inputDecl struct {
